@@ -20,12 +20,12 @@ use std::sync::{Arc, Mutex};
 
 #[derive(Clone, Debug, Serialize, Deserialize, PartialEq)]
 pub enum WOp {
-    Commit { writes: Vec<(K, Option<VSpec>)>, nonblocking: bool, retries: u32 },
+    Commit { writes: Vec<(K, Option<VSpec>)>, nonblocking: bool, retries: u32, #[serde(default)] par: u32 },
     OverlayCommit { writes: Vec<(K, Option<VSpec>)>, nonblocking: bool },
     Rollback { n: usize },
 }
 #[derive(Clone, Debug, Serialize, Deserialize, PartialEq)]
-pub struct ROp { pub reads: Vec<K>, pub proves: Vec<K>, pub hold: u32 }
+pub struct ROp { pub reads: Vec<K>, pub proves: Vec<K>, pub hold: u32, #[serde(default)] pub helpers: u32 }
 #[derive(Clone, Debug, Serialize, Deserialize, PartialEq)]
 pub struct ConcPlan { pub initial: Vec<(K, VSpec)>, pub writers: Vec<Vec<WOp>>, pub readers: Vec<Vec<ROp>>, pub initial_commits: u32 }
 
@@ -85,7 +85,7 @@ fn conc<H: HashAlgorithm + Send + Sync + 'static>(scen: &Scenario, dir: PathBuf,
             let task = format!("writer-{wi}");
             for op in ops {
                 match op {
-                    WOp::Commit { writes, nonblocking, retries } => {
+                    WOp::Commit { writes, nonblocking, retries, par } => {
                         let mut attempt = 0;
                         loop {
                             let sid = sess_ids.fetch_add(1, Ordering::SeqCst) as usize;
@@ -93,9 +93,22 @@ fn conc<H: HashAlgorithm + Send + Sync + 'static>(scen: &Scenario, dir: PathBuf,
                             let s = nomt.begin_session(SessionParams::default());
                             let b1 = tick();
                             let prev_root = s.prev_root().into_inner();
-                            hist.lock().unwrap().push(Rec { inv: b0, ret: b1, task: task.clone(), ev: Ev::SessBegin { id: sid, obs: vec![], prev_root } });
                             let mut actuals: Vec<(Key, KeyReadWrite)> = writes.iter().map(|(k, v)| (k.0, KeyReadWrite::Write(v.map(|v| value_bytes(&k.0, v))))).collect();
                             actuals.sort_by(|a, b| a.0.cmp(&b.0));
+                            let mut all: Vec<(Key, Option<Vec<u8>>)> = Vec::new();
+                            // one session used from several threads: helpers warm up, read and preserve
+                            // priors of the written keys concurrently, all joined before finish
+                            let s = if par > 0 {
+                                let shared = Arc::new(s);
+                                let hs: Vec<_> = (0..par).map(|hi| { let (sh, ks) = (shared.clone(), writes.clone()); shuttle::thread::Builder::new().name(format!("{task}-helper-{hi}")).spawn(move || {
+                                    let mut seen = Vec::new();
+                                    for (j, (k, _)) in ks.iter().enumerate() { match (j as u32 + hi) % 3 { 0 => sh.warm_up(k.0), 1 => sh.preserve_prior_value(k.0), _ => {} } if let Ok(v) = sh.read(k.0) { seen.push((k.0, v)); } }
+                                    seen
+                                }).unwrap() }).collect();
+                                for h in hs { if let Ok(v) = h.join() { all.extend(v); } }
+                                match Arc::try_unwrap(shared) { Ok(s) => s, Err(_) => { viol(&rep2, "HARNESS", "harness-panic", "session still shared".into()); return; } }
+                            } else { s };
+                            hist.lock().unwrap().push(Rec { inv: b0, ret: b1, task: task.clone(), ev: Ev::SessBegin { id: sid, obs: all, prev_root } });
                             let e0 = tick();
                             let fin = match s.finish(actuals) { Ok(f) => f, Err(e) => { viol(&rep2, &prop, "finish-error", format!("{e:#}")); return; } };
                             let e1 = tick();
@@ -162,6 +175,20 @@ fn conc<H: HashAlgorithm + Send + Sync + 'static>(scen: &Scenario, dir: PathBuf,
                 let ret = tick();
                 let prev_root = s.prev_root().into_inner();
                 let mut obs = Vec::new();
+                // the same session read and proved from helper threads at the same time
+                let s = Arc::new(s);
+                let helpers: Vec<_> = (0..op.helpers).map(|hi| { let (sh, rk, pk, rep3) = (s.clone(), op.reads.clone(), op.proves.clone(), rep2.clone()); shuttle::thread::Builder::new().name(format!("{task}-helper-{hi}")).spawn(move || {
+                    let mut seen: Vec<(Key, Option<Vec<u8>>)> = Vec::new();
+                    for (j, k) in rk.iter().enumerate().rev() { if (j as u32 + hi) % 2 == 0 { sh.warm_up(k.0); } match sh.read(k.0) { Ok(v) => seen.push((k.0, v)), Err(e) => { viol(&rep3, "C15", "read-error", format!("{e:#}")); return seen; } } }
+                    for k in pk.iter().rev() {
+                        let base = sh.prev_root().into_inner();
+                        if let Ok(p) = sh.prove(k.0) { match p.verify::<H>(k.0.view_bits::<Msb0>(), base) {
+                            Ok(vp) => { let read = sh.read(k.0).ok().flatten(); let ok = match &read { Some(v) => vp.confirm_value(&nomt::trie::LeafData { key_path: k.0, value_hash: H::hash_value(v) }).unwrap_or(false), None => vp.confirm_nonexistence(&k.0).unwrap_or(false) }; if !ok { viol(&rep3, "C15", "session-proof-disagrees-with-read", format!("proof and read of {} in one session (helper thread) disagree", hex(&k.0))); } seen.push((k.0, read)); }
+                            Err(e) => viol(&rep3, "C15", "session-proof-does-not-verify", format!("proof for {} (helper thread) does not verify against the session's base root: {e:?}", hex(&k.0))),
+                        } } else { viol(&rep3, "C15", "prove-error", format!("prove({}) failed in a helper thread", hex(&k.0))); }
+                    }
+                    seen
+                }).unwrap() }).collect();
                 for (j, k) in op.reads.iter().enumerate() {
                     match s.read(k.0) { Ok(v) => obs.push((k.0, v)), Err(e) => { viol(&rep2, "C15", "read-error", format!("{e:#}")); return; } }
                     if j as u32 % 2 == 0 { for _ in 0..op.hold { shuttle::thread::yield_now(); } }
@@ -183,6 +210,9 @@ fn conc<H: HashAlgorithm + Send + Sync + 'static>(scen: &Scenario, dir: PathBuf,
                         Err(e) => { viol(&rep2, "C15", "prove-error", format!("{e:#}")); return; }
                     }
                 }
+                for h in helpers { if let Ok(v) = h.join() { obs.extend(v); } }
+                if !rep2.lock().unwrap().violations.is_empty() { return; }
+                let s = match Arc::try_unwrap(s) { Ok(s) => s, Err(_) => { viol(&rep2, "HARNESS", "harness-panic", "session still shared".into()); return; } };
                 hist.lock().unwrap().push(Rec { inv, ret, task: task.clone(), ev: Ev::SessBegin { id, obs, prev_root } });
                 let inv2 = tick();
                 drop(s);
